@@ -208,6 +208,24 @@ class FamilyC09:
                 impl.append(impl_eval(tf, q, po))
                 lines.append(f"(eval {qs} {V.sx(p)})")
                 meta.append((x, p))
+        # comparison values at the ends of the datetime range, in a zone that pushes their UTC reading out of it
+        # (an open-ended range written as datetime.max in local time): well-formed, must build and evaluate
+        from datetime import datetime as _dt, timedelta as _td, timezone as _tz
+        import operator as _op
+
+        hi = _dt.max.replace(tzinfo=_tz(_td(hours=-1)))
+        lo = _dt.min.replace(tzinfo=_tz(_td(hours=1)))
+        mid = tf.Point(time=V.dt_of(T0))
+        for nm, op, rhs, want in (("<", _op.lt, hi, True), ("<=", _op.le, hi, True), (">", _op.gt, hi, False), ("==", _op.eq, hi, False),
+                                  ("!=", _op.ne, hi, True), (">", _op.gt, lo, True), (">=", _op.ge, lo, True), ("<", _op.lt, lo, False)):
+            try:
+                got = op(tf.TimeQuery(), rhs)(mid)
+            except Exception as e:
+                got = "raised " + type(e).__name__
+            if got is not want and len(res.findings) < 20:
+                res.findings.append(Finding(
+                    "impl-vs-spec", f"TimeQuery() {nm} {rhs!r} on a point in 2020: {got}, expected {want}",
+                    dict(family="c09-range-end", op=nm, rhs=repr(rhs), observed=str(got), expected=str(want))))
         spec = C.run_driver("specdriver", lines)
         model = C.run_driver("modeldriver", lines) if model_ok else None
         nontriv = 0
@@ -241,6 +259,9 @@ class FamilyC09:
 
 def replay_c09(payload):
     tf = C.import_tinyflux()
+    if payload.get("family") == "c09-range-end":
+        print(payload)
+        return True
     q = V.build_query(payload["query"], tf)
     p = V.build_point(payload["point"], tf)
     r = impl_eval(tf, q, p)
